@@ -19,7 +19,7 @@ Definition stmt_view (equation : string) : pres (option stmt) :=
       else if negb (count_char "{" equation =? count_char "}" equation)%nat then PErr ParserError
       else
         match find_any "=" equation with
-        | None => PErr ValueError
+        | None => PErr ParserError                  (* 1c7ed70: a statement without = is a ParserError *)
         | Some (lhs_text, rhs_text) =>
           match parse_terms lhs_text with
           | Raise e => PErr e
